@@ -1780,6 +1780,9 @@ def _print(fr, *a, **kw):
 
 @lib('builtins.isinstance')
 def _isinstance(fr, v, t):
+    if isinstance(v, Opaque) and 'isinstance_of_supported_ops' in v.attrs:
+        # whether a module is one of the (user-extensible) set of supported layer types: an unknown
+        return v.attrs['isinstance_of_supported_ops']
     ts = t if isinstance(t, tuple) else (t,)
     names = []
     for x in ts:
